@@ -307,4 +307,20 @@ theorem layoutE_eq_goE (c : Cfg) (ps : List Piece) : layoutE c ps = goE c none S
   unfold layoutE goE layout
   cases go c none St.init ps <;> rfl
 
+theorem go_setCR (c : Cfg) (f : Bool → Bool) : ∀ (ps : List Piece) (rs : Option (List Ws)) (st : St),
+    go c rs st (ps.map (setCR f)) = go c rs st ps := by
+  intro ps
+  induction ps with
+  | nil => intro rs st; rfl
+  | cons p ps ih =>
+    intro rs st
+    cases p with
+    | tok ty v => simp only [List.map_cons, setCR, go, ih]
+    | comment s => simp only [List.map_cons, setCR, go, ih]
+    | nl cr => simp only [List.map_cons, setCR, go, ih]
+    | ws w =>
+      cases rs with
+      | none => simp only [List.map_cons, setCR, go, ih]
+      | some ind => simp only [List.map_cons, setCR, go, ih]
+
 end NemoVerif.Layout
